@@ -1,1 +1,286 @@
-// harness stub: nothing here yet
+// Correspondence harness for daemon/src/gr.rs (properties C10, C11).
+// Included as the body of `gr::verif_hx` under cfg(all(test, osrg_rustybgp_verif)).
+//
+// case = [0, gr_peers, duration, inputs]   RestartingDeferral::{new, process}   (C11)
+// case = [1, inputs]                        GrState::{new, process}             (C10)
+// case = [2, ops]                           rustybgp_table::Table start_deferral / insert / end_deferral (C11)
+use super::*;
+
+#[allow(dead_code)]
+mod val {
+    include!(concat!(env!("VERIF_HX_DIR"), "/common/val.rs"));
+}
+use val::Val;
+
+fn fam_of(v: &Val) -> Family {
+    let x = v.u32();
+    Family::new((x >> 16) as u16, (x & 0xff) as u8)
+}
+fn fam_val(f: &Family) -> Val {
+    Val::n(((f.afi() as u32) << 16) | f.safi() as u32)
+}
+fn fams_of(v: &Val) -> Vec<Family> {
+    v.list().iter().map(fam_of).collect()
+}
+fn fams_val_sorted(l: &[Family]) -> Val {
+    let mut c: Vec<u32> = l.iter().map(|f| ((f.afi() as u32) << 16) | f.safi() as u32).collect();
+    c.sort();
+    Val::L(c.into_iter().map(Val::n).collect())
+}
+fn peer_of(v: &Val) -> IpAddr {
+    IpAddr::V4(std::net::Ipv4Addr::new(192, 0, 2, v.u8()))
+}
+fn dur_opt(v: &Val) -> Option<Duration> {
+    v.list().first().map(|d| Duration::from_secs(d.u64()))
+}
+
+// ------------------------------------------------------------------ C11
+
+fn rd_output_val(o: &RestartingOutput) -> Val {
+    match o {
+        // the family list is given as the code produced it (new() sorts it)
+        RestartingOutput::DeferFamilies(l) => {
+            Val::L(vec![Val::n(0u8), Val::L(l.iter().map(fam_val).collect())])
+        }
+        RestartingOutput::StartDeferralTimer(d) => {
+            Val::L(vec![Val::n(1u8), Val::opt(d.map(|d| Val::n(d.as_secs())))])
+        }
+        RestartingOutput::FamilyDeferralComplete(f) => Val::L(vec![Val::n(2u8), fam_val(f)]),
+        // hash-set order: canonicalised by sorting
+        RestartingOutput::EndDeferral(l) => Val::L(vec![Val::n(3u8), fams_val_sorted(l)]),
+    }
+}
+
+fn rd_input_of(v: &Val) -> RestartingInput {
+    let l = v.list();
+    match l[0].int() {
+        0 => RestartingInput::PeerEstablished(peer_of(&l[1]), fams_of(&l[2])),
+        1 => RestartingInput::EorReceived(peer_of(&l[1]), fam_of(&l[2])),
+        2 => RestartingInput::PeerWithdrawn(peer_of(&l[1])),
+        3 => RestartingInput::TimerExpired,
+        t => panic!("verif: bad restarting input tag {}", t),
+    }
+}
+
+fn run_rd_case(l: &[Val]) -> Val {
+    let mut map: FnvHashMap<IpAddr, Vec<Family>> = FnvHashMap::default();
+    for e in l[1].list() {
+        map.insert(peer_of(e.at(0)), fams_of(e.at(1)));
+    }
+    let (mut rd, outs) = RestartingDeferral::new(map, dur_opt(&l[2]));
+    let completed0 = rd.is_completed();
+    let mut steps = Vec::new();
+    for i in l[3].list() {
+        let o = rd.process(rd_input_of(i));
+        steps.push(Val::L(vec![
+            Val::L(o.iter().map(rd_output_val).collect()),
+            Val::b(rd.is_completed()),
+        ]));
+    }
+    Val::L(vec![
+        Val::L(outs.iter().map(rd_output_val).collect()),
+        Val::b(completed0),
+        Val::L(steps),
+    ])
+}
+
+// ------------------------------------------------------------------ C10: GrState
+fn gr_output_val(o: &GrOutput) -> Val {
+    match o {
+        GrOutput::StartTimer(d) => Val::L(vec![Val::n(0u8), Val::n(d.as_secs())]),
+        GrOutput::StopTimer => Val::L(vec![Val::n(1u8)]),
+        GrOutput::DeleteStaleRoutes(l) => {
+            Val::L(vec![Val::n(2u8), Val::L(l.iter().map(fam_val).collect())])
+        }
+        GrOutput::StartLlgrTimers(l) => Val::L(vec![
+            Val::n(3u8),
+            Val::L(l.iter()
+                .map(|(f, d)| Val::L(vec![fam_val(f), Val::n(d.as_secs())]))
+                .collect()),
+        ]),
+        GrOutput::StopLlgrTimers => Val::L(vec![Val::n(4u8)]),
+        GrOutput::DeleteLlgrStaleRoutes(l) => {
+            Val::L(vec![Val::n(5u8), Val::L(l.iter().map(fam_val).collect())])
+        }
+    }
+}
+
+fn gr_input_of(v: &Val) -> GrInput {
+    let l = v.list();
+    match l[0].int() {
+        0 => GrInput::SessionDropped {
+            gr: l[1].list().first().map(|g| GrParams {
+                families: fams_of(g.at(0)),
+                restart_time: Duration::from_secs(g.at(1).u64()),
+            }),
+            llgr: l[2].list().first().map(|lp| LlgrParams {
+                families: lp
+                    .list()
+                    .iter()
+                    .map(|p| (fam_of(p.at(0)), Duration::from_secs(p.at(1).u64())))
+                    .collect(),
+            }),
+        },
+        1 => GrInput::SessionEstablished { gr_families: fams_of(&l[1]) },
+        2 => GrInput::EorReceived(fam_of(&l[1])),
+        3 => GrInput::TimerExpired,
+        4 => GrInput::LlgrTimerExpired(fam_of(&l[1])),
+        t => panic!("verif: bad gr input tag {}", t),
+    }
+}
+
+fn run_grstate_case(l: &[Val]) -> Val {
+    let mut gr = GrState::new();
+    let mut steps = Vec::new();
+    for i in l[1].list() {
+        let o = gr.process(gr_input_of(i));
+        steps.push(Val::L(vec![
+            Val::L(o.iter().map(gr_output_val).collect()),
+            Val::b(gr.is_peer_restarting()),
+        ]));
+    }
+    Val::L(steps)
+}
+
+// ------------------------------------------------- C11: deferral slice of the RIB
+// ops: [0,f] start_deferral | [1,f,net,peer,pid,filtered] insert | [2,f] end_deferral
+//      | [3,f,net,peer,pid] remove | [4,f,peer] drop
+// public API of rustybgp-table only; every insert carries a fresh attribute block.
+fn tab_net(n: u32) -> rustybgp_packet::Nlri {
+    rustybgp_packet::Nlri::V4(rustybgp_packet::bgp::Ipv4Net {
+        addr: std::net::Ipv4Addr::new(10, 1, n as u8, 0),
+        mask: 24,
+    })
+}
+fn tab_net_val(n: &rustybgp_packet::Nlri) -> Val {
+    match n {
+        rustybgp_packet::Nlri::V4(p) => Val::n(p.addr.octets()[2]),
+        _ => Val::I(-3),
+    }
+}
+fn tab_source(peer: u8) -> std::sync::Arc<rustybgp_table::Source> {
+    std::sync::Arc::new(rustybgp_table::Source::new(
+        IpAddr::V4(std::net::Ipv4Addr::new(10, 0, 0, peer)),
+        IpAddr::V4(std::net::Ipv4Addr::new(10, 0, 0, 254)),
+        65000 + peer as u32,
+        65000,
+        std::net::Ipv4Addr::new(0, 0, 0, peer),
+        rustybgp_table::PeerRole::Ebgp,
+    ))
+}
+// the deferring flag is not readable through the public API: probe it with an
+// insert of a scratch prefix (NoChange while deferring) that is removed again
+fn tab_probe(t: &mut rustybgp_table::Table, f: Family) -> bool {
+    let src = tab_source(250);
+    let r = t.insert(
+        src.clone(),
+        f,
+        tab_net(255),
+        0,
+        None,
+        std::sync::Arc::new(Vec::new()),
+        None,
+        false,
+        false,
+        None,
+        0,
+    );
+    let deferring = r.as_changed().is_none();
+    let _ = t.remove(src, f, tab_net(255), 0, None);
+    deferring
+}
+fn changes_val(ch: &[rustybgp_table::NlriChange]) -> Val {
+    let mut v: Vec<(i128, i128)> = ch
+        .iter()
+        .map(|c| (tab_net_val(&c.net).int(), c.current_paths.len() as i128))
+        .collect();
+    v.sort();
+    Val::L(v.into_iter().map(|(a, b)| Val::L(vec![Val::I(a), Val::I(b)])).collect())
+}
+fn run_tab_case(l: &[Val]) -> Val {
+    let mut t = rustybgp_table::Table::new(0);
+    let mut srcs: FnvHashMap<u8, std::sync::Arc<rustybgp_table::Source>> = FnvHashMap::default();
+    let mut obs = Vec::new();
+    for op in l[1].list() {
+        let o = op.list();
+        let f = fam_of(&o[1]);
+        let res = match o[0].int() {
+            0 => {
+                t.start_deferral(f);
+                Val::L(vec![])
+            }
+            1 => {
+                let peer = o[3].u8();
+                let src = srcs.entry(peer).or_insert_with(|| tab_source(peer)).clone();
+                let r = t.insert(
+                    src,
+                    f,
+                    tab_net(o[2].u32()),
+                    o[4].u32(),
+                    None,
+                    std::sync::Arc::new(Vec::new()),
+                    None,
+                    o[5].bool(),
+                    false,
+                    None,
+                    0,
+                );
+                match r {
+                    rustybgp_table::InsertResult::NoChange => Val::L(vec![Val::n(0u8)]),
+                    rustybgp_table::InsertResult::Changed(c) => Val::L(vec![
+                        Val::n(1u8),
+                        tab_net_val(&c.net),
+                        Val::us(c.current_paths.len()),
+                    ]),
+                    rustybgp_table::InsertResult::PrefixLimitExceeded => Val::L(vec![Val::I(-4)]),
+                }
+            }
+            2 => {
+                // end_deferral reports every destination; a change with an empty path
+                // list is a withdrawal, not an announcement, and is not part of the
+                // "held prefixes announced" observation of the deferral slice model
+                let ch: Vec<_> = t
+                    .end_deferral(f)
+                    .into_iter()
+                    .filter(|c| !c.current_paths.is_empty())
+                    .collect();
+                Val::L(vec![Val::n(2u8), changes_val(&ch)])
+            }
+            3 => {
+                let peer = o[3].u8();
+                let src = srcs.entry(peer).or_insert_with(|| tab_source(peer)).clone();
+                let (ch, _) = t.remove(src, f, tab_net(o[2].u32()), o[4].u32(), None);
+                match ch {
+                    None => Val::L(vec![Val::n(0u8)]),
+                    Some(c) => Val::L(vec![
+                        Val::n(1u8),
+                        tab_net_val(&c.net),
+                        Val::us(c.current_paths.len()),
+                    ]),
+                }
+            }
+            4 => {
+                let (ch, _) = t.drop(IpAddr::V4(std::net::Ipv4Addr::new(10, 0, 0, o[2].u8())), f);
+                Val::L(vec![Val::n(2u8), changes_val(&ch)])
+            }
+            x => panic!("verif: bad table op {}", x),
+        };
+        obs.push(Val::L(vec![res, Val::b(tab_probe(&mut t, f))]));
+    }
+    Val::L(obs)
+}
+
+fn run_case(case: &Val) -> Val {
+    let l = case.list();
+    match l[0].int() {
+        0 => run_rd_case(l),
+        1 => run_grstate_case(l),
+        2 => run_tab_case(l),
+        t => panic!("verif: bad gr case kind {}", t),
+    }
+}
+
+#[test]
+fn verif_gr_cases() {
+    val::run_cases(run_case);
+}
